@@ -62,6 +62,16 @@ def gen_cases(tier, seed):
             cid = "arrive:%s-eps:%s-irt:%s-dest:%s-aud:%s-u%d-p%d" % (arrive, eps, irt, dest, aud, unsol, pat)
             cases.append({"id": cid, "sig": [arrive, eps, irt, dest, aud, unsol, pat], "irt": irt, "scd": "match", "dest": dest, "aud": aud, "rec": "own",
                           "unsol": unsol, "conv": 0, "pat": pat, "signed": 0, "arrive": arrive, "eps": eps})
+    # an assertion carried as advice inside the (well addressed) main assertion: what it contributes to the identity is subject to its own
+    # audience restrictions and bearer confirmations like that of any other assertion of the response
+    # (enc 2: only the advice assertion is encrypted, Advice/EncryptedAssertion as in PEFIM)
+    for aud, scd, unsol, signed, enc in itertools.product(AUD, ("match", "different"), (0, 1), (0, 1), (0, 1, 2)):
+        if tier == "quick" and aud in AUD_EXTRA and (unsol or enc == 1):
+            continue
+        cid = "advice-aud:%s-scd:%s-u%d-%s-%s" % (aud, scd, unsol, "s" if signed else "p", ("plain", "enc", "advice-enc")[enc])
+        cases.append({"id": cid, "sig": ["advice", aud, scd, unsol, signed, enc], "irt": "match", "scd": "match", "dest": "own", "aud": "one-naming", "rec": "own",
+                      "unsol": unsol, "conv": 0, "pat": 0, "signed": signed, "arrive": "post", "eps": "both", "enc": enc % 2,
+                      "advice": {"aud": aud, "scd": scd, "enc": enc == 2}})
     return cases
 
 
@@ -95,6 +105,31 @@ def _aud_xml(doc, layout):
             "two-naming+blank-audience": ar(me) + ar(""), "two-blank-audience-first": ar("") + ar(me),
             "three-naming+whitespace-audience+naming": ar(me) + ar(" \n ") + ar(me), "two-naming+restriction-without-audience": ar(me) + ar(),
             "two-naming+near-miss-slash": ar(me) + ar(me + "/"), "two-near-miss-case-first": ar(me.upper()) + ar(me)}[layout]
+
+
+def _add_advice(d, adv):
+    """copy of the main assertion (other ID, other attribute) with its own audience layout / bearer InResponseTo, put into saml:Advice"""
+    main = d.find(xk.SAML, "Assertion")[0]
+    p = d.prefix(main)
+    inner = xk.Doc(d.standalone(main))
+    inner = inner.set_attr(inner.root, "ID", "id-advice-assertion")
+    while inner.find(xk.SAML, "AudienceRestriction"):
+        inner = inner.remove(inner.find(xk.SAML, "AudienceRestriction")[0])
+    axml = _aud_xml(inner, adv["aud"])
+    if axml:
+        inner = inner.append_child(inner.find(xk.SAML, "Conditions")[0], axml)
+    scd = inner.find(xk.SAML, "SubjectConfirmationData")[0]
+    inner = inner.set_attr(scd, "InResponseTo", {"match": "id-req-1", "different": "id-other-request"}[adv["scd"]])
+    txt = inner.text()
+    if txt.startswith("<?xml"):
+        txt = txt[txt.index("?>") + 2:]
+    assert "Ann" in txt
+    txt = txt.replace("Ann", "Mallory").replace("givenName", "sn").replace("2.5.4.42", "2.5.4.4")
+    cond = d.find(xk.SAML, "Conditions")[0]
+    if adv.get("enc"):
+        ed = xk.encrypt_fragment(txt, fed.key(2)[1])
+        txt = "<%s:EncryptedAssertion>%s</%s:EncryptedAssertion>" % (p, ed.decode("utf-8") if isinstance(ed, bytes) else ed, p)
+    return d.insert_after(cond, "<%s:Advice>%s</%s:Advice>" % (p, txt, p))
 
 
 def _deliver(sp, xml, outstanding, binding, **kw):
@@ -157,6 +192,8 @@ def run_case(case, ctx):
     axml = _aud_xml(d, case["aud"])
     if axml:
         d = d.append_child(cond, axml)
+    if case.get("advice"):
+        d = _add_advice(d, case["advice"])
     doc = d.text()
     if case.get("enc"):
         doc = xk.encrypt_assertions(doc, fed.key(2)[1])
@@ -203,7 +240,18 @@ def run_case(case, ctx):
         else:
             key = "C05/foreign-recipient-accepted"
         viol.append({"key": key, "what": desc, "detail": {"document": doc[:5000]}})
-    if not accepted and conforming:
+    if case.get("advice") and accepted:
+        adv = case["advice"]
+        a_aud = adv["aud"] in ("none", "one-naming", "two-both-naming", "naming-among-several-audiences")
+        a_sol = bool(case["unsol"]) or adv["scd"] == "match"
+        merged = "Mallory" in repr(getattr(resp, "ava", None))
+        if merged and not a_aud:
+            viol.append({"key": "C05/advice-assertion-audience-not-checked", "what": desc + " - the advice assertion (audience=%s) contributed %r" % (
+                adv["aud"], resp.ava), "detail": {"document": doc[:6000]}})
+        elif merged and not a_sol:
+            viol.append({"key": "C05/advice-assertion-confirmation-names-another-request", "what": desc + " - the advice assertion (bearer InResponseTo=%s) contributed %r" % (
+                adv["scd"], resp.ava), "detail": {"document": doc[:6000]}})
+    if not accepted and conforming and not case.get("advice"):
         viol.append({"key": "C05/conforming-response-rejected", "what": desc + " (%r)" % (exc,), "detail": {"document": doc[:5000]}})
     if accepted and case["irt"] == "match" and getattr(resp, "came_from", None) != case.get("came", "/came/from"):
         viol.append({"key": "C05/came_from-not-that-of-the-outstanding-request", "what": desc + " came_from=%r" % getattr(resp, "came_from", None)})
